@@ -1,0 +1,88 @@
+//go:build verif
+
+package hash
+
+import (
+	"encoding/hex"
+	"fmt"
+	"reflect"
+	"sort"
+	"strings"
+)
+
+func describeField(fi *fieldInfo) string {
+	idx := make([]string, len(fi.Index))
+	for i, v := range fi.Index {
+		idx[i] = fmt.Sprint(v)
+	}
+	b := func(v bool) string {
+		if v {
+			return "1"
+		}
+		return "0"
+	}
+	e := "n"
+	switch fi.Opts.Encoding {
+	case nil:
+	default:
+		if fi.Opts.Encoding.Encode(0) == '.' {
+			e = "h"
+		} else {
+			e = "b"
+		}
+	}
+	param := "-"
+	if fi.Opts.Param != "" {
+		param = hex.EncodeToString([]byte(fi.Opts.Param))
+	}
+	length := "-"
+	if fieldHasLength(fi) {
+		length = fmt.Sprint(fi.Opts.Length)
+	}
+	return fmt.Sprintf("%s@%s:%s%s%s%s:%s:%s:%s:%d", fi.Name, strings.Join(idx, "."), b(fi.Opts.Prefix), b(fi.Opts.OmitEmpty),
+		b(fi.Opts.Group), b(fi.Opts.Inline), param, e, length, fi.Opts.Base)
+}
+
+// DescribeTypeInfo renders the normalized type information of t for the verification harness.
+func DescribeTypeInfo(t reflect.Type) (string, error) {
+	ti, err := getTypeInfo(t)
+	if err != nil {
+		return "", err
+	}
+	p := "~"
+	if ti.HashPrefix != nil {
+		p = describeField(ti.HashPrefix)
+	}
+	fs := "."
+	if len(ti.Fields) > 0 {
+		var parts []string
+		for _, fi := range ti.Fields {
+			parts = append(parts, describeField(fi))
+		}
+		fs = strings.Join(parts, " ")
+	}
+	return fmt.Sprintf("ok %d %s %s", ti.NumReqValues, p, fs), nil
+}
+
+// TypeInfoIdentity reports the address of the cached typeInfo for t (0 if none) and of the one
+// getTypeInfo returns.
+func TypeInfoIdentity(t reflect.Type) (cached, returned uintptr) {
+	if f, ok := typeCache.Load(indirectType(t)); ok {
+		cached = reflect.ValueOf(f.(*typeInfo)).Pointer()
+	}
+	if ti, err := getTypeInfo(t); err == nil {
+		returned = reflect.ValueOf(ti).Pointer()
+	}
+	return
+}
+
+// TypeCacheKeys lists the keys of the type cache.
+func TypeCacheKeys() []string {
+	var keys []string
+	typeCache.Range(func(k, _ interface{}) bool {
+		keys = append(keys, k.(reflect.Type).String())
+		return true
+	})
+	sort.Strings(keys)
+	return keys
+}
